@@ -285,9 +285,11 @@ def _queries(c, case, ctx):
                     raise Violation("fanout_depth|value", f"fanout_depth({desc}) = {got}, longest path {exp}")
             else:
                 for fn, nm in ((c.fanin_depth, "fanin_depth"), (c.fanout_depth, "fanout_depth")):
-                    r = lib(fn, arg)
-                    if r.ok or r.type != "ValueError":
-                        raise Violation(f"{nm}|cyclic_not_rejected", f"{nm}({desc}) on a cyclic circuit: {r.value if r.ok else r.text}")
+                    # the rejection does not depend on which depth (maximum / minimum) is asked for
+                    for kw_ in ({}, {"maximum": True}, {"maximum": False}):
+                        r = lib(fn, arg, **kw_)
+                        if r.ok or r.type != "ValueError":
+                            raise Violation(f"{nm}|cyclic_not_rejected", f"{nm}({desc}, {kw_}) on a cyclic circuit: {r.value if r.ok else r.text}")
 
     # topo_sort / levelize
     if not cyc:
